@@ -375,18 +375,21 @@ fn program(case: &[i128]) -> Option<Prog> {
         50 => {
             // code generic over the sequence type: the result type after a round trip must be S itself
             // 4..8: callers generic over a length-relating trait that state only what the trait's declaration asks for
-            if (4..=8).contains(&v) {
+            if (4..=10).contains(&v) {
                 let g = match v {
                     4 => "pub fn g<A, M>(a: A, b: A::Rest) -> A::Output where A: Concat<u8, M>, M: ArrayLength { a.concat(b) }",
                     5 => "pub fn g<N, M>(a: GenericArray<u8, N>, b: GenericArray<u8, M>) -> GenericArray<u8, typenum::Sum<N, M>> where N: ArrayLength + core::ops::Add<M>, M: ArrayLength, typenum::Sum<N, M>: ArrayLength { a.concat(b) }",
                     6 => "pub fn g<S, K>(s: S) -> (S::First, S::Second) where S: Split<u8, K>, K: ArrayLength { s.split() }",
                     7 => "pub fn g<S, N>(s: S) -> (u8, S::Output) where S: Remove<u8, N>, N: ArrayLength { s.remove(0) }",
+                    9 => "pub fn g<N>(a: GenericArray<u8, N>) -> (u8, GenericArray<u8, typenum::Sub1<N>>) where N: ArrayLength + core::ops::Sub<B1>, typenum::Sub1<N>: ArrayLength { a.remove(0) }",
+                    10 => "pub fn g<N, K>(a: GenericArray<u8, N>) -> (GenericArray<u8, K>, GenericArray<u8, typenum::Diff<N, K>>) where N: ArrayLength + core::ops::Sub<K>, K: ArrayLength, typenum::Diff<N, K>: ArrayLength { a.split() }",
                     _ => "pub fn g<S, N, M>(s: S) -> S::Output where S: Flatten<u8, N, M>, N: ArrayLength + core::ops::Mul<M>, typenum::Prod<N, M>: ArrayLength { s.flatten() }",
                 };
                 let call = match v {
                     4 | 5 => format!("pub fn call(x: {}, y: {}) -> {} {{ g(x, y) }}", ga("u8", n), ga("u8", 2), ga("u8", n + 2)),
                     6 => format!("pub fn call(x: {}) -> ({}, {}) {{ g::<_, {}>(x) }}", ga("u8", n + 1), ga("u8", 1), ga("u8", n), uint(1)),
-                    7 => format!("pub fn call(x: {}) -> (u8, {}) {{ g(x) }}", ga("u8", n + 1), ga("u8", n)),
+                    7 | 9 => format!("pub fn call(x: {}) -> (u8, {}) {{ g(x) }}", ga("u8", n + 1), ga("u8", n)),
+                    10 => format!("pub fn call(x: {}) -> ({}, {}) {{ g::<_, {}>(x) }}", ga("u8", n + 1), ga("u8", 1), ga("u8", n), uint(1)),
                     _ => format!("pub fn call(x: GenericArray<{}, {}>) -> {} {{ g(x) }}", ga("u8", n), uint(2), ga("u8", 2 * n)),
                 };
                 return Some(Prog { body: format!("{}\n{}\n", g, call), has_lens: false, kind: Kind::Length });
@@ -592,7 +595,7 @@ fn cases(tier: &str, rng: &mut Rng) -> Vec<Vec<i128>> {
         push(40, v, 0, 0, -1, 0);
     }
     // 50 round trips in code generic over the sequence type
-    for v in 0..9 {
+    for v in 0..11 {
         for n in [0i128, 1, 3] {
             push(50, v, n, 0, -1, 0);
         }
